@@ -44,6 +44,7 @@ def role(fn):
 
 
 def run(prog, rep):
+    sem = Sem(prog)
     rule = rep.rule('R-KEY', 'per backend field: writer, clearer and reader use the same literal key and store kind; constructors/header write what getters/checkHeader read', floor=40)
     classes = sorted(set(f.cls for f in prog.funcs.values() if f.cls and f.cls.startswith('nix::hdf5::') and f.cls.endswith('HDF5')))
     nfields = 0
@@ -84,6 +85,20 @@ def run(prog, rep):
             missing = [k for k in wk if k not in rk]
             rule.check(not missing, key + '|write-read', rep.where(roles['writer'][0]), key,
                        'written %s is read back by the getter' % sorted(wk), 'the setter writes %s but the getter reads %s: the value is lost (now or after reopen)' % (sorted(missing), sorted(rk)))
+            # write-through: the stored value derives from the setter's parameter
+            from ..sem import Flow
+            for wf in roles['writer']:
+                if any('none_t' in p['type'] for p in wf.params):
+                    continue
+                fl = Flow(sem, wf)
+                pnames = set(p['name'] for p in wf.params)
+                for kind, op, k, c in accesses(wf):
+                    if op in ('setAttr', 'setData') and k is not None and len(real_args(c)) >= 2:
+                        varg = real_args(c)[1]
+                        org = fl.origins(varg)
+                        okv = any(o[0] == 'param' and o[1] in pnames for o in org)
+                        rule.check(okv, '%s|%s|value-from-parameter' % (key, k), rep.where(c), wf.label(), 'the value stored under "%s" derives from the parameter' % k,
+                                   'the value stored under "%s" (%s) does not derive from the setter\'s parameter' % (k, varg.src(40)))
             if roles.get('clearer') and ck:
                 bad = [k for k in ck if k not in wk] + [k for k in wk if k not in ck and k[0] != 'group' and not any(k2[1] == k[1] for k2 in ck)]
                 rule.check(not bad, key + '|write-clear', rep.where(roles['clearer'][0]), key, 'the none_t overload removes %s' % sorted(ck),
@@ -116,6 +131,31 @@ def run(prog, rep):
     return rule
 
 
+def _ancestors(prog, cls, seen=None):
+    seen = set() if seen is None else seen
+    if cls in seen or cls is None:
+        return seen
+    seen.add(cls)
+    for b in (prog.records.get(cls) or {}).get('bases', []):
+        _ancestors(prog, b.get('q'), seen)
+    return seen
+
+
+def _related(prog, a, b):
+    """same class hierarchy line: a is b, derives from b, or b derives from a"""
+    return a == b or b in _ancestors(prog, a) or a in _ancestors(prog, b)
+
+
+def _dom(f, a, b):
+    def listed(n):
+        x = n
+        while x is not None and f.cfg.pos.get(x.id) is None:
+            x = x.p
+        return x
+    la, lb = listed(a), listed(b)
+    return la is not None and lb is not None and f.cfg.dominates(la.id, lb.id)
+
+
 def run_handles_only(prog, rep):
     """backend entity classes hold only handles (no value cache that could diverge from the file)"""
     rule = rep.rule('R-NOCACHE', 'backend entity classes own only handle-typed members (no cached values)', floor=10)
@@ -126,6 +166,44 @@ def run_handles_only(prog, rep):
         bad = [f for f in rec['fields'] if not ok_types.search(f['type']) and not f.get('mutable')]
         rule.check(not bad, '%s|members' % q, '%s:%s' % (prog.rel(rec['file']), rec['line']), q, 'members: %s' % [f['name'] for f in rec['fields']],
                    'value-typed member(s) %s could cache file content' % [(f['name'], f['type']) for f in bad])
+    # the one handle cache: optGroup. Either every access looks the container up again, or no cached container is ever unlinked.
+    og = prog.fn('nix::hdf5::optGroup::operator()')
+    sem = Sem(prog)
+    rets = [n for n in og.walk() if n.k == 'return']
+    lookups = [c for c in og.calls(name='hasGroup')]
+    if not rets:
+        raise AnalysisBroken('optGroup::operator() has no return')
+    fresh = bool(lookups)
+    unlooked = []
+    for r in rets:
+        facts = sem.facts_at(og, r.id)
+        decided = any(t[:2] == ('m', 'hasGroup') for (t, pol) in facts) or any(_dom(og, l, r) for l in lookups)
+        if not decided:
+            fresh = False
+            unlooked.append(rep.where(r))
+    containers = {}
+    for f in prog.funcs.values():
+        if f.body is None:
+            continue
+        for c in f.calls(name='openOptGroup'):
+            k = str_arg(real_args(c)[0]) if real_args(c) else None
+            if isinstance(k, str):
+                containers.setdefault(k, set()).add(f.cls)
+    if len(containers) < 8:
+        raise AnalysisBroken('R-NOCACHE: only %d optional container groups found' % len(containers))
+    unlinked = []
+    for f in prog.funcs.values():
+        if f.body is None or not (f.cls or '').startswith('nix::hdf5::') or not (f.cls or '').endswith('HDF5'):
+            continue
+        for c in f.calls(name='removeGroup'):
+            k = str_arg(real_args(c)[0]) if real_args(c) else None
+            if isinstance(k, str) and k in containers and any(_related(prog, f.cls, oc) for oc in containers[k]):
+                unlinked.append('%s unlinks "%s" at %s' % (f.q, k, rep.where(c)))
+    rule.check(fresh or not unlinked, 'optGroup|cached-handle-vs-unlink', rep.where(og), og.q,
+               ('every access looks the container up again (hasGroup decides every return); ' if fresh else 'cached handle may be returned without lookup, but ') +
+               ('no container group is ever unlinked' if not unlinked else 'containers are unlinked: %s' % unlinked[:2]) + ' (%d containers)' % len(containers),
+               'optGroup returns its cached handle without looking the group up again (return at %s) while %s: an entity object that already used the container keeps writing '
+               'into the unlinked group, and those writes are gone after close' % (unlooked[:1], '; '.join(unlinked[:2])))
     # links are hard links created in one place
     creators = set()
     for f in prog.funcs.values():
